@@ -411,7 +411,7 @@ def check(pid, tier, seed):
         checker_cmd=proof["checker_cmd"] or "make (not run)",
         trusted_base=TRUSTED_COMMON + cfg.get("trusted", []) + ["Print Assumptions: " + " | ".join(proof["assumptions"])],
         theorems=proof["theorems"],
-        evaluations=summary["evaluations"], distinct_nontrivial=summary["distinct_nontrivial"],
+        evaluations=summary["evaluations"], cases=summary.get("cases", summary["evaluations"]), distinct_nontrivial=summary["distinct_nontrivial"],
         rule=cfg.get("rule", "") or summary.get("rule", ""),
         samples=summary.get("samples") or [{"note": "no sample"}],
         traces_validated_against_impl=traces_ok,
